@@ -292,15 +292,17 @@ func (ks *knownSet) match(prop string, v *Violation) *knownFinding {
 }
 
 // evalPred: tiny expression language over observed values:
-//   expr := or ; or := and ('||' and)* ; and := not ('&&' not)* ; not := '!' not | cmp
-//   cmp := sum (op sum)? ; sum := atom (('+'|'-') atom)* ; atom := number | ident | f64(ident) | '(' expr ')'
+//
+//	expr := or ; or := and ('||' and)* ; and := not ('&&' not)* ; not := '!' not | cmp
+//	cmp := sum (op sum)? ; sum := atom (('+'|'-') atom)* ; atom := number | ident | f64(ident) | '(' expr ')'
+//
 // integers are compared as signed 64-bit; if either side is a float the comparison is in float64.
 type pval struct {
-	f     float64
-	i     int64
-	isF   bool
-	isB   bool
-	b     bool
+	f   float64
+	i   int64
+	isF bool
+	isB bool
+	b   bool
 }
 
 type predParser struct {
